@@ -6,6 +6,8 @@ from hypothesis import strategies as st
 
 from pwv import core, dwtu, dtu
 from pwv.core import Result, lib
+from pwv.props.c12 import LAYOUTS
+from pwv.props.c06 import to_layout
 
 ID = 'C11'
 ABSENT = ['none', 'zerodim', 'empty']
@@ -57,7 +59,8 @@ def _case(draw, unit):
             'N': draw(st.sampled_from([1, 1, 2])), 'C': draw(st.sampled_from([1, 2, 3])),
             'dtype': draw(st.sampled_from(['f64', 'f64', 'f64', 'f32'])),
             'low': low, 'highs': his, 'zero_valued': [int(draw(st.integers(0, 3)) == 0) for _ in range(J + 1)],
-            'reused': draw(st.integers(0, 2)) == 0, 'filt_form': draw(st.sampled_from(['names', 'names', 'names', 'tuples'])),
+            'reused': draw(st.integers(0, 2)) == 0,
+            'layout': list(draw(st.sampled_from(LAYOUTS))) if draw(st.integers(0, 2)) == 0 else [2, -1], 'filt_form': draw(st.sampled_from(['names', 'names', 'names', 'tuples'])),
             'rx': draw(core.recipe_strategy()), 'rp': draw(core.recipe_strategy()),
             'k': draw(st.integers(0, 10**6))}
 
@@ -127,17 +130,22 @@ def run_case(case):
                 for t in range(1, J)) else None,
             'ambiguous_absent' if amb else None)
     r.nontrivial = J >= 2 and (bool(labs) or some_absent)
+    o_, ri_ = case.get('layout', [2, -1])
+    r.label('nondefault_layout' if (o_ % 6, ri_ % 6) != (2, 5) else None)
+
+    def lay(t):
+        return to_layout(t, o_, ri_)
     with dwtu.default_dtype(tdt):
         ib, iq = dtu.filt_args(b, q, case.get('filt_form', 'names'), inverse=True)
         twin = {'qshift_06': 'qshift_a', 'qshift_a': 'qshift_06'}.get(q)
         if case.get('reused') and twin:
             # the module had a previous life with the other 10-tap q-shift set (load_state_dict in between)
             r.label('reused_module')
-            inv = DTCWTInverse(biort=b, qshift=twin)
-            inv((torch.ones(1, 1, 8, 8, dtype=tdt), [torch.ones(1, 1, 6, 8, 8, 2, dtype=tdt), torch.ones(1, 1, 6, 4, 4, 2, dtype=tdt)]))
-            inv.load_state_dict(DTCWTInverse(biort=ib, qshift=iq).state_dict())
+            inv = DTCWTInverse(biort=b, qshift=twin, o_dim=o_, ri_dim=ri_)
+            inv((torch.ones(1, 1, 8, 8, dtype=tdt), [lay(torch.ones(1, 1, 6, 8, 8, 2, dtype=tdt)), lay(torch.ones(1, 1, 6, 4, 4, 2, dtype=tdt))]))
+            inv.load_state_dict(DTCWTInverse(biort=ib, qshift=iq, o_dim=o_, ri_dim=ri_).state_dict())
         else:
-            inv = DTCWTInverse(biort=ib, qshift=iq)
+            inv = DTCWTInverse(biort=ib, qshift=iq, o_dim=o_, ri_dim=ri_)
     total = dwtu.pyr_total(lo_shape, hi_shapes)
     He, We = H + H % 2, W + W % 2
 
@@ -146,7 +154,7 @@ def run_case(case):
     r.label('full_operator' if full else 'operator_column_subset')
     yl, yh = dwtu.split_flat(M, lo_shape, hi_shapes)
     want = np.stack([dtu.ref_inverse(yl[i], [h[i] for h in yh], b, q) for i in range(M.shape[0])])
-    ok, out = lib(inv, (torch.tensor(yl[:, None], dtype=tdt), [torch.tensor(h[:, None], dtype=tdt) for h in yh]))
+    ok, out = lib(inv, (torch.tensor(yl[:, None], dtype=tdt), [lay(torch.tensor(h[:, None], dtype=tdt)) for h in yh]))
     if not ok:
         return r.fail(out.bucket, 'inverse raised on a forward-compatible pyramid: %s' % out)
     g = max(1.0, float(np.abs(want).reshape(want.shape[0], -1).sum(0).max())) if full else 4.0 ** J
@@ -178,7 +186,7 @@ def run_case(case):
     want = np.stack([dtu.ref_inverse(zl[n, c], [h[n, c] for h in zh], b, q)
                      for n in range(N) for c in range(C)]).reshape(N, C, He, We)
     tl = torch.tensor(dl, dtype=tdt) if case['low'] == 'present' else _absent(case['low'], tdt)
-    th = [torch.tensor(h, dtype=tdt) if k == 'present' else _absent(k, tdt) for h, k in zip(dh, case['highs'])]
+    th = [lay(torch.tensor(h, dtype=tdt)) if k == 'present' else _absent(k, tdt) for h, k in zip(dh, case['highs'])]
     snap = list(th)
     ok, out = lib(inv, (tl, th))
 
